@@ -8,7 +8,7 @@ import vlib
 from harness import regions_common as rc
 from harness import c08x
 
-GEN = ['Regions']
+GEN = ['Regions', 'RegionOps']
 EXTRA_TARGETS = c08x.EXTRA_TARGETS
 LEVEL = 'proof'
 TRUSTED = [
